@@ -7,6 +7,10 @@ hooks = subprocess.run(["git", "-C", "/repo", "log", "--format=%h %s"], capture_
 hook_commits = [l.split()[0] for l in hooks if "verif hooks" in l]
 
 CLAIMS = {
+ "C19": dict(
+   text="Coq theorems at the level of the abstract map: deserialisation (insert entries one by one) is total on every entry list and a repeated key keeps the last value; serialise-then-deserialise returns the same key->value map for every duplicate-free listing; for every permutation (interleaving) of the supplied items, parallel extend/collect yields old keys + supplied keys with each supplied key mapped to one of its supplied values; and, over the API table regenerated from serde_impls.rs, the visitors contain no panicking macro. The serde format layer and rayon scheduling are glue outside the model and are covered by direct differential runs against std collections (round trips, generated documents with repeats/malformations under catch_unwind, thread pools 1/2/4/8).",
+   note="the link from 'some interleaving of inserts' to the real concurrent execution is C01 (linearizability); serde_json and rayon themselves are trusted",
+   tech="Coq proof (list-fold lemmas over the abstract map, regenerated visitor table) + differential runs through serde_json/rayon", ref="DESIGN.md 5/C19"),
  "C06": dict(
    text="Coq theorems (Proofs/RBProofs.v, all Qed, closed under the global context) over the tree-bin model: TreeBin::new, find_or_put_tree_val, value replacement and remove_tree_node (CLR insertion and deletion fix-up, written over a zipper one case per branch of the Rust loops) preserve: search order by (hash,key), black root, no red-red, equal black height, and next-list = tree node set; tree lookup = list lookup; 2^height <= (n+1)^2 and 2^(key comparisons of a lookup) <= (n+1)^4, for all trees and keys. The model is tied to node.rs on every run by step-wise structural correspondence: the model operation applied to the implementation's dumped pre-state must reproduce the dumped post-state with identical shape, colours and list order (tree-heavy generator: ascending/descending/zig-zag/random fills and drains, colliding and same-bin hashes); pointer-level parent/prev links are re-derived from every dump; Eq/Ord calls of real lookups are counted against 4*log2(n+1).",
    note="parent/prev pointer consistency is checked on dumps, not proved; the statement 'bins of >= 8 nodes in tables >= 64 are trees (or lists of <= 10 nodes right after growth)' is checked on every dump by the comparison counter, its proof over all sequences belongs to the sequential refinement",
